@@ -14,13 +14,13 @@ ASSUMPTIONS = [
     "operation kinds, interleavings and target sequences are the enumerated bound; states, parameters, operators symbolic",
 ]
 BOUNDS = {"quick": "operation kinds: Fock Creation / Annihilation / PhaseShift / Custom / Expresion, polarization RX / Custom(numpy), "
-                   "custom-state Custom, composite CX / Expression(2 operand typings); interleavings: none, construct a sibling "
+                   "custom-state Custom, composite CX / Expression(operand typings of equal and of different arity, as names and as classes); interleavings: none, construct a sibling "
                    "operation of the same type with other parameters, construct+apply a sibling; two targets of different size",
           "thorough": "same"}
 OPTS = {"quick": {"max_paths": 96, "timeout_ms": 10000, "case_timeout_s": 900},
         "thorough": {"max_paths": 192, "timeout_ms": 30000, "case_timeout_s": 1800}}
 
-KINDS = ["fock.DisplaceConcrete", "comp.ExprFF", "fock.Creation", "fock.Annihilation", "fock.PhaseShift", "fock.Custom", "fock.Expresion", "pol.RX", "pol.CustomNumpy",
+KINDS = ["fock.DisplaceConcrete", "comp.ExprFF", "comp.ExprF1c", "comp.ExprFFc", "fock.Creation", "fock.Annihilation", "fock.PhaseShift", "fock.Custom", "fock.Expresion", "pol.RX", "pol.CustomNumpy",
          "custom.Custom", "comp.CX", "comp.ExprPC", "comp.ExprCP"]
 INTERLEAVE = ["none", "construct-sibling", "apply-sibling"]
 
@@ -61,6 +61,13 @@ def _world(kind):
         w = cm.world(S, [{"kind": "own", "sub": "c0", "level": "V"},
                          {"kind": "ps", "ce": 0, "members": ["p0", "c1"], "level": "V"}], [["e0", "c1"]])
         return w, [["c0"], ["c1"]]
+    if kind in ("comp.ExprF1c", "comp.ExprFFc"):
+        # operands inside product spaces (the composite envelope hands a composite operation on ONE own-state subsystem to
+        # that subsystem, which only accepts its own operation types)
+        S = cm.subs(4, 0, [2, 2, 2, 2])
+        w = cm.world(S, [{"kind": "ps", "ce": 0, "members": ["f0", "f1"], "level": "V"},
+                         {"kind": "ps", "ce": 0, "members": ["f2", "f3"], "level": "V"}], [["e0", "e1", "e2", "e3"]])
+        return w, ([["f0"], ["f2"]] if kind == "comp.ExprF1c" else [["f0", "f1"], ["f2", "f3"]])
     if kind == "comp.ExprFF":
         # two Fock operands whose automatically chosen dimensions are (2,3) for the first and (3,2) for the second target pair
         S = cm.subs(4, 0, [3, 3, 3, 3])
@@ -116,7 +123,7 @@ def _make(B, kind, tag, W):
         from harness.C03 import _gate_matrix
 
         return Operation(CompositeOperationType.CXPolarization), (lambda d: _gate_matrix(B, "CX")), True, user, 0
-    if kind == "comp.ExprFF":
+    if kind in ("comp.ExprFF", "comp.ExprF1c", "comp.ExprFFc"):
         def num(d):
             M = ref.zeros((d, d), B.like())
             for n in range(d):
@@ -127,9 +134,29 @@ def _make(B, kind, tag, W):
             # (lowers the photon number: stays inside the automatically chosen cut-off occupation + 1)
             return cm.annihilation(B, d)
 
+        if kind != "comp.ExprFF":
+            # diagonal unitary factors: nothing is annihilated (no path ends in the all-zero rejection) and they commute
+            # with the truncation to the automatically chosen cut-off
+            def quad(d):  # noqa: F811
+                M = ref.zeros((d, d), B.like())
+                for n in range(d):
+                    M[n, n] = ref.const([1, 1j, -1, -1j][n % 4], B.like())
+                return M
+
+            def num(d):  # noqa: F811
+                M = ref.zeros((d, d), B.like())
+                for n in range(d):
+                    M[n, n] = ref.const([1, -1][n % 2], B.like())
+                return M
+
         wrap = lambda M: B.jnp.array(M) if B.mode == "real" else B.jnp.ndarray(M)
         ctx = {"a0": lambda dims: wrap(quad(int(dims[0]))), "n1": lambda dims: wrap(num(int(dims[1])))}
-        op = Operation(CompositeOperationType.Expression, expr=("kron", "a0", "n1"), state_types=("Fock", "Fock"), context=ctx)
+        if kind == "comp.ExprF1c":
+            # operand types given as CLASSES, one operand; its sibling has two operands of the same class (a prefix)
+            op = Operation(CompositeOperationType.Expression, expr="a0", state_types=(W.h.Fock,), context={"a0": ctx["a0"]})
+            return op, (lambda d: quad(d[0])), True, user, 0
+        types = (W.h.Fock, W.h.Fock) if kind == "comp.ExprFFc" else ("Fock", "Fock")
+        op = Operation(CompositeOperationType.Expression, expr=("kron", "a0", "n1"), state_types=types, context=ctx)
         return op, (lambda d: ref.kron(quad(d[0]), num(d[1]))), True, user, 0
     if kind in ("comp.ExprPC", "comp.ExprCP"):
         M = B.operator("U" + tag, 4)
@@ -149,7 +176,7 @@ def _cre(B, d):
     return B.jnp.array(M) if B.mode == "real" else B.jnp.ndarray(M)
 
 
-SIBLING = {"comp.ExprPC": "comp.ExprCP", "comp.ExprCP": "comp.ExprPC"}
+SIBLING = {"comp.ExprPC": "comp.ExprCP", "comp.ExprCP": "comp.ExprPC", "comp.ExprF1c": "comp.ExprFFc", "comp.ExprFFc": "comp.ExprF1c"}
 
 
 def _apply(W, kind, op, names):
